@@ -105,7 +105,7 @@ def xgrant(ctx, zero=False):
     ctx.cov["traces_validated_against_impl"] += nhist
     ondemand_ok = sum(1 for e in events if e["op"] not in ("init", "drop") and e["r"].get("k") == "ok" and e.get("dev"))
     ctx.cov["on_demand_accesses_with_device_traffic"] = ondemand_ok
-    if ondemand_ok < 50:
+    if ondemand_ok < 50 and not ctx.violations:
         raise ToolError("the emulated grant device saw almost no traffic (%d accesses)" % ondemand_ok)
     ctx.sample({"kind": "on-demand accesses with the emulated grant device log",
                 "events": [{"op": e["op"], "a": e["a"], "r": e["r"], "dev": e.get("dev")} for e in events[1:5]]})
